@@ -142,4 +142,36 @@ case: (@split_ordP 1 n.+1 i) => i' ->; case: (@split_ordP 1 n.+1 j) => j' -> far
   by move: far; rewrite /= !subnDl.
 Qed.
 
+(* ---- envelope (profile) preservation: no fill-in to the left of the first non-zero of a row ---- *)
+(* f i = number of leading zeros of row i (and of column i, the matrix being symmetric) *)
+Definition in_profile n (f : nat -> nat) (A : 'M[F]_n) :=
+  forall i j : 'I_n, (j < f i)%N -> A i j = 0 /\ A j i = 0.
+
+Lemma schur_profile n f (A : 'M[F]_(1 + n)) :
+  in_profile f A -> in_profile (fun i => (f i.+1).-1) (schur A).
+Proof.
+move=> pA i j lt_j; rewrite /schur !mxE !big_ord1 !mxE.
+have lt1 : (1 + j < f (1 + i))%N by rewrite add1n -ltn_predRL.
+have pos : (0 < f (1 + i))%N by apply: leq_ltn_trans lt1.
+have [B1 B2] := pA (rshift 1 i) (rshift 1 j) lt1.
+have [V1 V2] := pA (rshift 1 i) (lshift n 0) pos.
+by rewrite B1 B2 V1 V2 !(mul0r, mulr0) subr0.
+Qed.
+
+Theorem ldl_L_in_envelope n f (A : 'M[F]_n.+1) :
+  in_profile f A -> forall i j : 'I_n.+1, (j < f i)%N -> (j < i)%N -> (ldl A).1 i j = 0.
+Proof.
+elim: n f A => [|n IH] f A pA i j /=.
+  by rewrite !ord1.
+case: (@split_ordP 1 n.+1 i) => i' ->; case: (@split_ordP 1 n.+1 j) => j' -> lt_j lt_ij.
+- by move: lt_ij; rewrite !ord1.
+- by rewrite (@block_mxEur _ 1 n.+1 1 n.+1) mxE.
+- rewrite (@block_mxEdl _ 1 n.+1 1 n.+1) !mxE.
+  have [V1 _] := pA (rshift 1 i') (lshift n.+1 j') lt_j.
+  by rewrite V1 mulr0.
+- rewrite (@block_mxEdr _ 1 n.+1 1 n.+1); apply: (IH _ _ (schur_profile pA)).
+    by move: lt_j; rewrite /= !add1n ltn_predRL.
+  by move: lt_ij; rewrite /= !add1n ltnS.
+Qed.
+
 End LDL.
